@@ -33,6 +33,7 @@ RULE = (
     "{add(frame i, critical config j in {own, wider, narrower}), scene()} incl. repetitions and permutations; non-trivial = "
     "sequence that re-evaluates a ground-truth frame or queries the scene after >= 2 frames; distinct = (task, frame id, "
     "sequence shape classes: re-evaluated?, narrower-before?, scene queries, permuted?)"
+    " Later additions: one-frame scenes compared on tracking scores too; every frame's tracking score vs. the library's CLEAR on (results of the frame evaluated immediately before, own results); sparse recordings with gaps of seconds; adjacent-float confidences in pooling."
 )
 ASSUMPTIONS = ["confidences are pairwise distinct", "scene pooling groups a result under its estimate's label, or its ground truth's label when the estimate's label is not a target (the library's rule)"]
 DECIDING = ["add_frame_result.snapshots_checked", "get_scene_result.judged", "C13.probe_comparisons", "C13.reevaluated_after_narrower", "C13.one_frame_scenes", "C13.permutations_compared", "C13.interpolated_lookups", "C13.adjacent_confidence_poolings", "C13.audit_events_seen"]
